@@ -210,11 +210,15 @@ func genSmallWL(t *rapid.T, capL int, premise bool, pool []string) gen.WLSpec {
 	}
 	w.Scheme = rapid.SampledFrom(gen.Schemes).Draw(t, "scheme")
 	// separators without retries: constants, tiny presets, requirement-free recipes
-	switch rapid.IntRange(0, 5).Draw(t, "sepkind") {
+	switch rapid.IntRange(0, 6).Draw(t, "sepkind") {
 	case 0, 1:
 		w.Sep = gen.SepSpec{Kind: "const", Const: rapid.SampledFrom(gen.ConstSeps).Draw(t, "sepconst")}
 	case 2:
 		w.Sep = gen.SepSpec{Kind: "preset", Preset: rapid.SampledFrom([]string{"SFNone", "SFDigits1", "SFSymbols", "SFDigitsNoAmbiguous1"}).Draw(t, "preset")}
+	case 4:
+		// a separator recipe Generate declines (too unlikely to meet its
+		// requirements): it yields no separator and must not add entropy
+		w.Sep = gen.SepSpec{Kind: "func", Recipe: &oracle.CharSpec{Length: 2, Allow: oracle.Letters, Require: oracle.Digits | oracle.Symbols}}
 	case 3:
 		// a caller-written separator function: picks uniformly among distinct
 		// values and reports its true entropy or (legitimately) under-claims 0
@@ -234,6 +238,10 @@ func genSmallWL(t *rapid.T, capL int, premise bool, pool []string) gen.WLSpec {
 		w.Sep = gen.SepSpec{Kind: "func", Recipe: &oracle.CharSpec{Length: rapid.IntRange(1, 2).Draw(t, "seplen"), AllowChars: ab}}
 	}
 	_, _, m := buildSep(w.Sep)
+	m = declinedSep(w.Sep, m)
+	if m.Refused {
+		capL /= 20 // every gap costs a full (declined) character-recipe generation
+	}
 	kept := oracle.Kept(w.Words)
 	maxL := 1
 	for L := 2; L <= 6; L++ {
@@ -243,6 +251,14 @@ func genSmallWL(t *rapid.T, capL int, premise bool, pool []string) gen.WLSpec {
 	}
 	w.Length = rapid.IntRange(1, maxL).Draw(t, "length")
 	return w
+}
+
+// declinedSep corrects the separator model for recipes Generate declines.
+func declinedSep(s gen.SepSpec, m sepModel) sepModel {
+	if rf, _ := sepRefused(s); rf {
+		m.Values, m.Entropy, m.Refused = []string{""}, 0, true
+	}
+	return m
 }
 
 func compareDist(got, want map[string]*big.Rat) error {
